@@ -1441,7 +1441,7 @@ def ob_simple_objectives(ctx):
     class Env(drivers.Env):
         def dyn_closure(self, engine, st, tag, args):
             if tag in ('job_weight', 'job_value'):
-                return self.sym_f(tag, 0, 2 ** 16)
+                return self.sym_f_path(st, tag, 0, 2 ** 16)
             return super().dyn_closure(engine, st, tag, args)
 
     def feature_objective(feature):
@@ -1572,7 +1572,7 @@ def ob_leg_scan(ctx, k, closed, n_tw=1, with_best_known=False):
                     viol = z3.Bool(f'viol_{idx}_{t}')
                     v = self.struct('goal::ConstraintViolation', code=Agg('struct', [IV(1, 'i32')], 'goal::ViolationCode'), stopped=BV(z3.Bool(f'stop_{idx}_{t}')))
                     return mk_option(viol, v, ty='Option<ConstraintViolation>')
-                c = self.sym_f(f'cost_{idx}_{t}', 0, 2 ** 20)
+                c = self.sym_f_path(st, f'cost_{idx}_{t}', 0, 2 ** 20)
                 return self.struct('insertions::InsertionCost', data=VecV([c]))
             if callee.endswith('InsertionCost::max_value'):
                 return RefV(Cell(self.struct('insertions::InsertionCost', data=VecV([FV.max_value()]))), 0)
@@ -1677,5 +1677,144 @@ def ob_leg_scan(ctx, k, closed, n_tw=1, with_best_known=False):
         res.witnesses = int(saw_ok) + int(saw_fail)
         if not (saw_ok and saw_fail):
             res.status, res.detail = 'inconclusive', f'vacuous: success={saw_ok} failure={saw_fail}'
+    res.time = time.time() - t0
+    return res
+
+
+def ob_fold_step(ctx, k, nonneg):
+    """C15 (per-leaf fold step): `eval_job_insertion_in_route(.., alternative)` is what rayon folds over the (route, job)
+    pairs.  For the result of `evaluate_all` to be independent of how the pairs are grouped into folds, the step has to
+    be `min`: cost(result) == min(cost(alternative), route estimate + best activity estimate).  The function prunes a
+    route when the alternative is not worse than the ROUTE-level estimate alone, which is only a lower bound of the total
+    if activity-level estimates are non-negative.  `nonneg=True`: decided under that assumption (claimed);
+    `nonneg=False`: no assumption - a counter-model is the recorded known finding."""
+    from symex import DynV
+    name = f'fold_step[k={k},{"activity estimates >= 0" if nonneg else "any sign"}]'
+    res = Result(name)
+    res.bounds = (f'tour of {k} jobs (closed), one place x one time window, symbolic alternative (failure or success with symbolic cost), symbolic '
+                  f'route-level estimate and per-leg verdicts / activity-level estimates ({">= 0" if nonneg else "any sign"}); BestResultSelector')
+    t0 = time.time()
+    n_legs = k + 1
+    fn = ctx.prog.find_free('eval_job_insertion_in_route')
+    lo = 0 if nonneg else -(2 ** 20)
+
+    class Env(drivers.Env):
+        def override(self, engine, st, callee, args, dest_ty):
+            if callee.endswith('GoalContext::evaluate') or callee.endswith('GoalContext::estimate'):
+                mc = deref_all(args[1])
+                if mc.variant() == 0:     # route level
+                    if callee.endswith('evaluate'):
+                        return mk_option(False, ty='Option<ConstraintViolation>')
+                    return self.struct('insertions::InsertionCost', data=VecV([self.sym_f_path(st, 'route_estimate', 0, 2 ** 20)]))
+                actx = deref_all(mc.payload[1][2])
+                idx = self.field(actx, 'context::ActivityContext', 'index').concrete()
+                if callee.endswith('evaluate'):
+                    v = self.struct('goal::ConstraintViolation', code=Agg('struct', [IV(1, 'i32')], 'goal::ViolationCode'), stopped=BV(False))
+                    return mk_option(z3.Bool(f'viol_{idx}'), v, ty='Option<ConstraintViolation>')
+                return self.struct('insertions::InsertionCost', data=VecV([self.sym_f_path(st, f'act_estimate_{idx}', lo, 2 ** 20)]))
+            if callee.endswith('InsertionCost::max_value'):
+                return RefV(Cell(self.struct('insertions::InsertionCost', data=VecV([FV.max_value()]))), 0)
+            if 'HashMap' in callee and callee.split('::<')[0].endswith('get') or ('HashMap' in callee and '>::get' in callee):
+                return mk_option(False, ty=dest_ty)   # the job carries no unassignment code
+            if callee.endswith('UnwrapValue>::unwrap_value'):
+                cf = args[0]
+                v = cf.variant()
+                if v is None:
+                    v = 0 if engine.split_bool(st, cf.discr == 0) else 1
+                return cf.payload[v][0]
+            return super().override(engine, st, callee, args, dest_ty)
+
+        def dyn_call(self, engine, st, trait, method, args, dest_ty):
+            if trait == 'ResultSelector':
+                fns = engine.prog.find_method('BestResultSelector', method, trait='ResultSelector')
+                if len(fns) == 1:
+                    return engine.exec_fn(st, fns[0], args)
+                return engine.exec_fn(st, self._trait_default('ResultSelector', method), args)
+            return super().dyn_call(engine, st, trait, method, args, dest_ty)
+
+    for alt_success in (True, False):
+        env = Env(ctx.prog, ctx.layout, 16)
+        eng = symex.Engine(ctx.prog, ctx.layout, env)
+
+        def body(st, env=env, eng=eng, alt_success=alt_success):
+            env.assumptions.clear()
+            spec = TourSpec(env, k, True)
+            rc = spec.build()
+            place = env.struct('jobs::Place', location=mk_option(True, IV(77), ty='Option<usize>'), duration=env.sym_f('job_duration'),
+                               times=VecV([EnumV('domain::TimeSpan', 0, {0: [env.time_window(env.sym_f('tw_start'), env.sym_f('tw_end'))]})]))
+            single = ArcV(Cell(env.struct('jobs::Single', places=VecV([place]), dimens=StateV())))
+            job = EnumV('jobs::Job', 0, {0: [single]})
+            goal = ArcV(Cell(Opaque('goal')))
+            order = ctx.layout.fields('domain::Problem')
+            problem = Agg('struct', [Opaque(f) for f in order], 'domain::Problem')
+            problem.fields[order.index('goal')] = goal
+            so = ctx.layout.fields('context::SolutionContext')
+            solution = Agg('struct', [Opaque(f) for f in so], 'context::SolutionContext')
+            ictx = env.struct('context::InsertionContext', problem=ArcV(Cell(problem)), solution=solution, environment=Opaque('environment'))
+            eval_ctx = env.struct('evaluators::EvaluationContext', goal=RefV(goal.cell, 0), job=RefV(Cell(job), 0),
+                                  leg_selection=RefV(Cell(EnumV('selectors::LegSelection', 1, {})), 0), result_selector=RefV(Cell(DynV('selector')), 0))
+            if alt_success:
+                alt_cost = env.struct('insertions::InsertionCost', data=VecV([env.sym_f('alternative_cost', 0, 2 ** 20)]))
+                alt = EnumV('insertions::InsertionResult', 0, {0: [env.struct('insertions::InsertionSuccess', cost=alt_cost, job=Opaque('other_job'),
+                                                                              activities=VecV([]), actor=Opaque('other_actor'))]})
+            else:
+                alt = EnumV('insertions::InsertionResult', 1, {1: [env.struct('insertions::InsertionFailure', constraint=Agg('struct', [IV(-1, 'i32')], 'goal::ViolationCode'),
+                                                                              stopped=BV(False), job=mk_option(False, ty='Option<Job>'))]})
+            position = EnumV('evaluators::InsertionPosition', 0, {})
+            return eng.exec_fn(st, fn, [RefV(Cell(ictx), 0), RefV(Cell(eval_ctx), 0), RefV(Cell(rc), 0), position, alt])
+
+        paths = eng.explore(body, max_paths=4000)
+        res.paths += len(paths)
+        res.functions |= eng.functions_used
+        for st, out in paths:
+            if out is None:
+                if not no_panic(ctx, res, env, st, what=name):
+                    break
+                continue
+            r = z3.Int('route_estimate')
+            viol = [z3.Bool(f'viol_{i}') for i in range(n_legs)]
+            act = [z3.Int(f'act_estimate_{i}') for i in range(n_legs)]
+            a0 = z3.Int('alternative_cost')
+            # reference: minimum over the alternative and all violation-free candidates
+            best_is = []
+            res.claims += 1
+            if out.variant() is None:
+                res.status, res.detail = 'inconclusive', 'symbolic result variant'
+                break
+            any_cand = z3.Or(*[z3.Not(v) for v in viol])
+            if out.variant() == 0:
+                s = out.payload[0][0]
+                rcost = s.fields[ctx.layout.fields('insertions::InsertionSuccess').index('cost')].fields[0].items[0]
+                conds = [z3.Not(rcost.m)]
+                opts = []
+                if alt_success:
+                    opts.append(rcost.v == a0)
+                    conds.append(rcost.v <= a0)
+                for i in range(n_legs):
+                    opts.append(z3.And(z3.Not(viol[i]), rcost.v == r + act[i]))
+                    conds.append(z3.Implies(z3.Not(viol[i]), rcost.v <= r + act[i]))
+                claim = z3.And(z3.Or(*opts), *conds)
+            else:
+                claim = z3.And(z3.BoolVal(not alt_success), z3.Not(any_cand))
+            domain = [z3.And(x >= lo, x <= 2 ** 20) for x in act] + [z3.And(r >= 0, r <= 2 ** 20), z3.And(a0 >= 0, a0 <= 2 ** 20)]
+            if not decide_claim(ctx, res, env, st, claim, domain, what=f'{name}: cost(result) == min(alternative, route estimate + activity estimate of every violation-free leg)'):
+                if res.model is not None:
+                    m = res.model
+                    ev = lambda t: m.eval(t, model_completion=True).as_long()
+                    feas = [i for i in range(n_legs) if not z3.is_true(m.eval(viol[i], model_completion=True))]
+                    best_act = min([ev(act[i]) for i in feas]) if feas else 0
+                    # the same situation through the public API: job0 sets the alternative, job1 is the pruned one, fillers keep
+                    # the single-threaded run sequential
+                    res.case = {'kind': 'fold_order', 'routes': 1,
+                                'route_estimates': [ev(a0) if alt_success else 10 ** 6, ev(r), 10 ** 6, 10 ** 6],
+                                'activity_estimates': [0, best_act, 0, 0]}
+                break
+            if not no_panic(ctx, res, env, st, what=name):
+                break
+            res.witnesses += int(witness(ctx, res, env, st, z3.BoolVal(True)))
+        if res.status != 'holds':
+            break
+    if res.status == 'holds' and res.witnesses == 0:
+        res.status, res.detail = 'inconclusive', 'vacuous'
     res.time = time.time() - t0
     return res
